@@ -384,8 +384,8 @@ func main() {
 	}
 	cli.Main(&cli.Property{
 		ID: "C19", Level: "exploration", Parts: parts, QuickSecs: 60, ThoroughSecs: 900,
-		Rule: "complete enumeration of operand spaces against exact arithmetic (int64 for <=16 bit, math/big above): all pairs of the 8-bit types (thorough: of the 16-bit types too), all (value, shift 0..255) pairs, and the complete cross product of a boundary alphabet (0, +-1..3, min/max +-3, +-2^k and +-2^k+-1 for every k, sqrt(max)+-1, max/a+-1) for 32/64-bit types, SafeMulUint64, SafeMulInt64 and (triples) Safe64MulDiv; distinct_nontrivial = evaluations whose exact result is not representable (an error is required)",
+		Rule:        "complete enumeration of operand spaces against exact arithmetic (int64 for <=16 bit, math/big above): all pairs of the 8-bit types (thorough: of the 16-bit types too), all (value, shift 0..255) pairs, and the complete cross product of a boundary alphabet (0, +-1..3, min/max +-3, +-2^k and +-2^k+-1 for every k, sqrt(max)+-1, max/a+-1) for 32/64-bit types, SafeMulUint64, SafeMulInt64 and (triples) Safe64MulDiv; distinct_nontrivial = evaluations whose exact result is not representable (an error is required)",
 		Assumptions: []string{"math/big and int64 arithmetic are the reference"},
-		NotReached: []string{"the full 2^64 x 2^64 operand space (boundary alphabet only)", "named integer types other than the eight basic ones"},
+		NotReached:  []string{"the full 2^64 x 2^64 operand space (boundary alphabet only)", "named integer types other than the eight basic ones"},
 	})
 }
